@@ -3,7 +3,8 @@ import RcVerif.Model.Commands
 /-
   Model of core/codec_c.go: `CRespCodec.Decode`, `parseLine`, `Frag1`, `Frag2`,
   `Eval`, `Default`, `MGet`, `Del`, `MSet`, `sizeTooLarge` (after the fixes).
-  The slot function is a parameter.
+  The slot function is a parameter. Places where the Go code would panic
+  (indexing an empty line) are explicit `panic` outcomes, proved unreachable.
 -/
 namespace RcVerif.CDecode
 open RcVerif.Resp RcVerif.Commands
@@ -15,37 +16,48 @@ structure CMsg where
   keys : List Bytes                 -- `Msg.Keys`
   frags : List (Nat × Bytes)        -- `Msg.Body`: slot ↦ `Frag.Req`, in first-occurrence order of slots
   groups : List (Nat × List Bytes)  -- `Msg.Frags` (MGET/DEL) or flattened `Msg.Frags2` (MSET), per slot
-  deriving Repr
+  deriving Repr, DecidableEq
 
 inductive COut
   | incomplete                      -- any error but ErrInvalidResp: wait for more bytes
   | invalid                         -- ErrInvalidResp: the connection is closed
+  | panic                           -- the Go code would panic here (proved unreachable)
   | ok (m : CMsg) (consumed : Nat)
-  deriving Repr
+  deriving Repr, DecidableEq
+
+/-- framing errors as `eventloop.cread` distinguishes them -/
+inductive FErr
+  | incomplete | invalid | panic
+  deriving Repr, DecidableEq
+
+def ofRErr : RErr → FErr
+  | .invalid => .invalid
+  | _ => .incomplete
 
 /-- `parseLine`: one bulk string argument -/
-def parseLine (rest : Bytes) : Except RErr (Bytes × Bytes) :=
+def parseLine (rest : Bytes) : Except FErr (Bytes × Bytes) :=
   match readLine rest with
   | .error .emptyLineAdv => .error .invalid
-  | .error e => .error e
+  | .error e => .error (ofRErr e)
   | .ok (line, rest1) =>
     match line with
+    | [] => .error .panic             -- `line[0]` on an empty line
     | 36 :: lenBytes =>               -- '$'
       match parseLen lenBytes with
       | .error _ => .error .invalid
       | .ok n =>
         if n < 0 then .error .invalid
         else match readN n.toNat rest1 with
-          | .error e => .error e
+          | .error e => .error (ofRErr e)
           | .ok (b, rest2) =>
             match readN 2 rest2 with
-            | .error _ => .error .shortLine
+            | .error _ => .error .incomplete
             | .ok (crlf, rest3) =>
               if crlf = [13, 10] then .ok (b, rest3) else .error .invalid
     | _ => .error .invalid
 
 /-- parse `n` arguments -/
-def parseArgs : Nat → Bytes → Except RErr (List Bytes × Bytes)
+def parseArgs : Nat → Bytes → Except FErr (List Bytes × Bytes)
   | 0, rest => .ok ([], rest)
   | n + 1, rest =>
     match parseLine rest with
@@ -54,6 +66,29 @@ def parseArgs : Nat → Bytes → Except RErr (List Bytes × Bytes)
       match parseArgs n rest1 with
       | .error e => .error e
       | .ok (as, rest2) => .ok (a :: as, rest2)
+
+/-- the framing part of `Decode`: header line, command name, arguments.
+    Returns (name, arguments, what was unread after the name, unread rest). -/
+def frame (view : Bytes) : Except FErr (Bytes × List Bytes × Bytes × Bytes) :=
+  if view.length < 1 then .error .incomplete else
+  match readLine view with
+  | .error .lfNotFound => .error .incomplete
+  | .error _ => .error .invalid
+  | .ok (line, rest0) =>
+    match line with
+    | [] => .error .panic
+    | 42 :: lenBytes =>              -- '*'
+      match parseLen lenBytes with
+      | .error _ => .error .invalid
+      | .ok n =>
+        if n < 1 then .error .invalid else
+        match parseLine rest0 with
+        | .error e => .error e
+        | .ok (name, rest1) =>
+          match parseArgs (n.toNat - 1) rest1 with
+          | .error e => .error e
+          | .ok (args, rest2) => .ok (name, args, rest1, rest2)
+    | _ => .error .invalid
 
 /-- append an item to the group of its slot (Go: `resp.Frags[slot] = append(v, seg)`) -/
 def addToGroup {α} (s : Nat) (k : α) : List (Nat × List α) → List (Nat × List α)
@@ -82,61 +117,52 @@ def nameMget : Bytes := [109, 103, 101, 116]
 def nameDel : Bytes := [100, 101, 108]
 def nameMset : Bytes := [109, 115, 101, 116]
 
+/-- the request object built from a framed request. `raw` is `buf.ReadBuf()`:
+    the bytes read, with the command name lower-cased in place. -/
+def build (T : Tables) (slot : Bytes → Nat) (limit : Nat) (name : Bytes) (args : List Bytes)
+    (raw : Bytes) (consumed : Nat) : CMsg :=
+  let argc := args.length
+  let ty := transform2Type T name argc
+  let sized (m : CMsg) : CMsg := if consumed > limit then { m with type := T.cTooLarge } else m
+  if ty = T.cMget ∨ ty = T.cDel then
+    let g := groupBySlot slot args
+    let nm := if ty = T.cMget then nameMget else nameDel
+    sized { type := ty, key := [], keys := args, groups := g,
+            frags := g.map (fun p => (p.1, encodeCmd nm p.2)) }
+  else if ty = T.cMset then
+    let ps := pairs args
+    let g := groupBySlot (fun p : Bytes × Bytes => slot p.1) ps
+    sized { type := ty, key := [], keys := ps.map (·.1), groups := g.map (fun p => (p.1, unpairs p.2)),
+            frags := g.map (fun p => (p.1, encodeCmd nameMset (unpairs p.2))) }
+  else if ty = T.cEval ∨ ty = T.cEvalsha then
+    let ty' := if argc < 3 then T.cWrongArgs else ty
+    let k := match args with
+      | _ :: _ :: k :: _ => k
+      | _ => []
+    let s := match args with
+      | _ :: _ :: k :: _ => slot k
+      | _ => 0
+    sized { type := ty', key := k, keys := [], groups := [], frags := [(s, raw)] }
+  else
+    let k := match args with
+      | k :: _ => k
+      | [] => []
+    let s := match args with
+      | k :: _ => slot k
+      | [] => 0
+    sized { type := ty, key := k, keys := [], groups := [], frags := [(s, raw)] }
+
 /-- `CRespCodec.Decode` on the bytes in view -/
 def decode (T : Tables) (slot : Bytes → Nat) (limit : Nat) (view : Bytes) : COut :=
-  if view.length < 1 then .incomplete else
-  match readLine view with
-  | .error .lfNotFound => .incomplete
-  | .error _ => .invalid
-  | .ok (line, rest0) =>
-    match line with
-    | 42 :: lenBytes =>              -- '*'
-      match parseLen lenBytes with
-      | .error _ => .invalid
-      | .ok n =>
-        if n < 1 then .invalid else
-        match parseLine rest0 with
-        | .error .invalid => .invalid
-        | .error _ => .incomplete
-        | .ok (name, rest1) =>
-          let argc := n.toNat - 1
-          let ty := transform2Type T name argc
-          match parseArgs argc rest1 with
-          | .error .invalid => .invalid
-          | .error _ => .incomplete
-          | .ok (args, rest2) =>
-            let consumed := view.length - rest2.length
-            -- `buf.ReadBuf()`: the bytes read so far, with the command name lower-cased in place
-            let a := view.length - rest1.length - 2 - name.length
-            let raw := view.take a ++ toLower name ++ (view.take consumed).drop (a + name.length)
-            let sized (m : CMsg) : CMsg := if consumed > limit then { m with type := T.cTooLarge } else m
-            if ty = T.cMget ∨ ty = T.cDel then
-              let g := groupBySlot slot args
-              let nm := if ty = T.cMget then nameMget else nameDel
-              .ok (sized { type := ty, key := [], keys := args, groups := g,
-                           frags := g.map (fun p => (p.1, encodeCmd nm p.2)) }) consumed
-            else if ty = T.cMset then
-              let ps := pairs args
-              let g := groupBySlot (fun p : Bytes × Bytes => slot p.1) ps
-              .ok (sized { type := ty, key := [], keys := ps.map (·.1), groups := g.map (fun p => (p.1, unpairs p.2)),
-                           frags := g.map (fun p => (p.1, encodeCmd nameMset (unpairs p.2))) }) consumed
-            else if ty = T.cEval ∨ ty = T.cEvalsha then
-              let ty' := if argc < 3 then T.cWrongArgs else ty
-              let k := match args with
-                | _ :: _ :: k :: _ => k
-                | _ => []
-              let s := match args with
-                | _ :: _ :: k :: _ => slot k
-                | _ => 0
-              .ok (sized { type := ty', key := k, keys := [], groups := [], frags := [(s, raw)] }) consumed
-            else
-              let k := match args with
-                | k :: _ => k
-                | [] => []
-              let s := match args with
-                | k :: _ => slot k
-                | [] => 0
-              .ok (sized { type := ty, key := k, keys := [], groups := [], frags := [(s, raw)] }) consumed
-    | _ => .invalid
+  match frame view with
+  | .error .incomplete => .incomplete
+  | .error .invalid => .invalid
+  | .error .panic => .panic
+  | .ok (name, args, rest1, rest) =>
+    let consumed := view.length - rest.length
+    -- position of the command name inside the consumed bytes: it ends 2 bytes (CRLF) before the arguments
+    let a := view.length - rest1.length - 2 - name.length
+    let raw := view.take a ++ toLower name ++ (view.take consumed).drop (a + name.length)
+    .ok (build T slot limit name args raw consumed) consumed
 
 end RcVerif.CDecode
